@@ -930,6 +930,45 @@ def copy_deep(x):
 
 
 # =================================================================================================
+# C13 / 6   per-decay options stay with their decay: a second decay mode of the same mother is not affected by the options of the first
+# =================================================================================================
+@group(["C13", "C19"], "amp.core.get_decay/options_do_not_leak", ["amp.core:get_decay", "amp.core:get_particle", "amp.core:HelicityDecay.get_ls_list"],
+       env="tf", kind="G", cost=2,
+       bound="mother J^P in {1-, 2+, 1+} carrying a `decay_params` attribute (empty, and with one harmless entry); first decay mode built with explicit options from "
+             "{p_break: True, l_list: [0], ls_list: [[0, 1]], ls_selector: 'qr'}; second mode (vector + axial / vector + pseudoscalar daughters) built afterwards without options",
+       assumes=["runs in the real-TensorFlow worker (historical choice)"])
+def options_do_not_leak(ctx):
+    core = ctx.mod("amp.core")
+    A = Agg(ctx)
+    A.declare("second_mode_ls_list", "the (l,s) list of a decay mode built WITHOUT options equals the spec set whatever options an earlier decay mode of the same mother was given")
+    A.declare("mother_decay_params_unchanged", "the mother's `decay_params` attribute is not modified by building a decay with explicit options")
+    modes2 = [((1, -1), (1, 1)), ((1, -1), (0, -1))]
+    for (ja, pa), dp0 in itertools.product([(1, -1), (2, 1), (1, 1)], [{}, {"has_barrier_factor": True}]):
+        for opts in ({"p_break": True}, {"l_list": [0]}, {"ls_list": [[0, 1]]}, {"ls_selector": "qr"}):
+            for (jb, pb), (jc, pc) in modes2:
+                w = {"mother": [ja, pa], "decay_params": dict(dp0), "first_mode_options": opts, "second_mode_daughters": [[jb, pb], [jc, pc]]}
+                ctx.count(key=str(w), sample=w)
+                import contextlib
+                import io
+
+                with contextlib.redirect_stdout(io.StringIO()):
+                    mother = core.get_particle(uid("M"), J=ja, P=pa, decay_params=dict(dp0))
+                    x, y = core.get_particle(uid("X"), J=1, P=-1), core.get_particle(uid("Y"), J=0, P=-1)
+                    ok1, d1 = call(lambda: core.get_decay(mother, [x, y], **opts))  # noqa: B023
+                    b, c = core.get_particle(uid("B"), J=jb, P=pb), core.get_particle(uid("C"), J=jc, P=pc)
+                    ok2, d2 = call(lambda: core.get_decay(mother, [b, c]))  # noqa: B023
+                    ok3, ls = call(d2.get_ls_list) if ok2 else (False, d2)
+                if not (ok1 and ok2 and ok3):
+                    A.add("second_mode_ls_list", False, "raised %s" % ([d1, d2, ls],), w)
+                    continue
+                spec = spec_ls(ja, jb, jc, pa, pb, pc, False, None)
+                got = [(Fraction(l), Fraction(s_)) for l, s_ in ls]
+                A.add("second_mode_ls_list", set(got) == spec and len(got) == len(spec), "offered %r, allowed %s" % (list(ls), sorted(jsonable(list(e)) for e in spec)), w)
+                A.add("mother_decay_params_unchanged", dict(getattr(mother, "decay_params", {})) == dict(dp0), "decay_params now %r, before %r" % (getattr(mother, "decay_params", None), dp0), w)
+    A.emit()
+
+
+# =================================================================================================
 # C14 spec
 # =================================================================================================
 
